@@ -615,12 +615,25 @@ def gen_program_x86(rng, feat, bits=32):
             byte = rng.randint(1, 4)
             writers.append("MOV BYTE PTR [cell%d+%d], %s" % (tgt, byte, "0x%x" % rng.getrandbits(8) if rng.random() < 0.6
                                                             else rng.choice(["BL", "CL", "DL", "AL"])))
+        if rng.random() < 0.3:
+            # a string store into a cell: the stores sit in an inner IR block of the instruction, the block that
+            # leaves the instruction has no memory access
+            tgt = rng.randrange(ncell)
+            at = rng.randint(0, len(writers))
+            writers[at:at] = ["PUSH EDI", "PUSH ECX", "MOV EDI, cell%d" % tgt, "INC EDI", "MOV ECX, %d" % rng.randint(1, 4),
+                              "REP STOSB", "POP ECX", "POP EDI"]
         if jcell:
             writers.insert(rng.randint(0, len(writers)), "MOV BYTE PTR [jc7+1], 0x0")
             if rng.random() < 0.4:
                 writers.insert(rng.randint(0, len(writers)), "MOV BYTE PTR [jc7+1], 0x5")
         lcell = lab()
         pos = rng.choice(["before", "between", "loop", "nested", "nested"])
+        if pos != "nested" and rng.random() < 0.35:
+            # a string store patches the cell that follows it at once, in the same block: nothing with a memory
+            # access of its own runs between the store and the patched instruction
+            kcell = rng.randrange(ncell)
+            at = seq.index("cell%d:" % kcell)
+            seq[at:at] = ["MOV EDI, cell%d" % kcell, "INC EDI", "MOV ECX, %d" % rng.randint(1, 4), "REP STOSB"]
         if pos == "before":
             main = main + writers + seq
         elif pos == "between":
